@@ -79,7 +79,11 @@ def _canonical(oid):
 def oracle(pre, pool, op, outcome, cfg):
     objs = tree.closure(pool)
     if tree.tree_violations(objs, check_queries=False):
-        return [(None, None, True)]               # C03's business: pruned, not judged here
+        # The tree invariant itself is C03's business and the state is not expanded.  What this operation did to the
+        # sibling names is still judged: the pre-state was well-formed (ill-formed states are never expanded), so a
+        # child list that now holds one name twice - e.g. one child listed twice - is this property's violation too.
+        dup = [(c, d, True) for c, d in tree.naming_violations(objs) if c.startswith("duplicate-sibling-")]
+        return dup or [(None, None, True)]
     out = []
     for clause, detail in tree.naming_violations(objs):
         out.append((clause, detail, True))
@@ -133,7 +137,8 @@ PLANS = {
 
 def check(tier):
     run = report.Run(PROP, tier, LEVEL, RULE, assumptions=[
-        "states that violate the C03 tree invariant are pruned (counted, not judged)",
+        "states that violate the C03 tree invariant are not expanded; of the operation that led there only the sibling-name "
+        "clause is judged",
         "non-string ids (5) are outside the statement: any outcome that keeps the invariants is accepted",
     ])
     plan = PLANS[tier]
